@@ -588,5 +588,5 @@ func TestConcurrentConns(t *testing.T) {
 
 func TestReplay(t *testing.T) {
 	defer stopServer()
-	kit.Replay[Case](t, map[string]func(kit.RawCase) kit.Outcome{"inproc": kit.ReplaySub(execInproc), "tcp": kit.ReplaySub(execTCP), "subscribed": kit.ReplaySub(execSubscribed), "concurrent": kit.ReplaySub(execConcurrent), "roundtrip": kit.ReplaySub(execRoundTrip), "halfclose": kit.ReplaySub(execHalfClose), "storm": kit.ReplaySub(execStorm), "shared": kit.ReplaySub(execShared)})
+	kit.Replay[Case](t, map[string]func(kit.RawCase) kit.Outcome{"inproc": kit.ReplaySub(execInproc), "tcp": kit.ReplaySub(execTCP), "subscribed": kit.ReplaySub(execSubscribed), "concurrent": kit.ReplaySub(execConcurrent), "roundtrip": kit.ReplaySub(execRoundTrip), "halfclose": kit.ReplaySub(execHalfClose), "storm": kit.ReplaySub(execStorm), "shared": kit.ReplaySub(execShared), "late": kit.ReplaySub(execLate)})
 }
